@@ -643,21 +643,29 @@ func run(c *enum.Ctx, prop string) {
 				sweepWords = append(sweepWords, string(s))
 			}
 		})
-		w := make([][]int, len(def))
-		for i := range w {
-			w[i] = make([]int, len(def))
-		}
-		for mi := 0; mi < len(mats); mi += 7 {
+		// once upwards through the enumeration and once downwards (scores that rise, scores that fall), each
+		// with a matrix value of its own
+		for _, down := range []bool{false, true} {
+			w := make([][]int, len(def))
 			for i := range w {
-				copy(w[i], mats[mi][i])
+				w[i] = make([]int, len(def))
 			}
-			for _, al := range aligners {
-				for _, r := range sweepWords {
-					for _, q := range sweepWords {
-						k := Case{Aligner: al, R: r, Q: q, Letters: def, M: mats[mi], Open: -1, Handed: "rewritten", use: w}
-						c.Doing(0, k)
-						c.Eval()
-						report(c, prop, k, evaluate(k))
+			for step := 0; step*7 < len(mats); step++ {
+				mi := step * 7
+				if down {
+					mi = len(mats) - 1 - step*7
+				}
+				for i := range w {
+					copy(w[i], mats[mi][i])
+				}
+				for _, al := range aligners {
+					for _, r := range sweepWords {
+						for _, q := range sweepWords {
+							k := Case{Aligner: al, R: r, Q: q, Letters: def, M: mats[mi], Open: -1, Handed: "rewritten", use: w}
+							c.Doing(0, k)
+							c.Eval()
+							report(c, prop, k, evaluate(k))
+						}
 					}
 				}
 			}
